@@ -19,9 +19,12 @@ const (
 	FlushFragment
 	Flush
 	Grow
+	// ReadFromErr is ReadFrom with a source that fails with a non-EOF error after
+	// it has delivered its bytes.
+	ReadFromErr
 )
 
-var kindNames = []string{"Write", "ReadFrom", "WriteThrough", "FlushFragment", "Flush", "Grow"}
+var kindNames = []string{"Write", "ReadFrom", "WriteThrough", "FlushFragment", "Flush", "Grow", "ReadFromErr"}
 
 // Op is a symbolic operation.
 type Op struct {
@@ -100,6 +103,9 @@ func Alphabet() []Op {
 	for _, s := range []int{0, 1, 4, 7} {
 		a = append(a, Op{Kind: Grow, Sel: s})
 	}
+	for _, s := range []int{1, 3, 6} {
+		a = append(a, Op{Kind: ReadFromErr, Sel: s})
+	}
 	a = append(a, Op{Kind: FlushFragment}, Op{Kind: Flush})
 	return a
 }
@@ -148,6 +154,12 @@ func Apply(w *wsutil.Writer, op Op, feed *Feed, planSeed int64) (r Result) {
 		p := feed.Next(k)
 		plans := xport.Plans(planSeed, nil)
 		src := xport.NewChunker(p, plans[int(uint64(planSeed)%uint64(len(plans)))])
+		n, err := w.ReadFrom(src)
+		r.N, r.Err = n, err
+	case ReadFromErr:
+		p := feed.Next(k)
+		plans := xport.Plans(planSeed, nil)
+		src := xport.NewCutter(p, plans[int(uint64(planSeed)%uint64(len(plans)))], len(p), xport.ErrInjected)
 		n, err := w.ReadFrom(src)
 		r.N, r.Err = n, err
 	case WriteThrough:
